@@ -687,6 +687,94 @@ func c14(c *Ctx) {
 				}
 			}
 		}
+		// or looked up in a constant table keyed by the encoding: entry.<func field>(body)
+		tableIdentity := false
+		for _, cl := range callsIn(rb) {
+			if cl.Common().IsInvoke() || staticCallee(cl) != nil {
+				continue
+			}
+			// entry.<field> where entry is the looked-up table element (a value, or a local holding it)
+			var entryVal ssa.Value
+			var entryType types.Type
+			fieldIdx := -1
+			var entryCell *ssa.Alloc
+			switch fv := cl.Common().Value.(type) {
+			case *ssa.Field:
+				entryVal, entryType, fieldIdx = fv.X, fv.X.Type(), fv.Field
+			case *ssa.UnOp:
+				if fa, isFA := fv.X.(*ssa.FieldAddr); isFA && fv.Op == token.MUL {
+					if al, isAl := fa.X.(*ssa.Alloc); isAl {
+						n := 0
+						for _, ref := range referrers(al) {
+							if st, isSt := ref.(*ssa.Store); isSt && st.Addr == ssa.Value(al) {
+								n++
+								entryVal = st.Val
+							}
+						}
+						if n != 1 {
+							entryVal = nil
+						}
+						entryType, fieldIdx, entryCell = fa.X.Type(), fa.Field, al
+					}
+				}
+			}
+			if entryVal == nil {
+				continue
+			}
+			isFuncField := func(v ssa.Value) bool {
+				switch x := v.(type) {
+				case *ssa.Field:
+					return x.X == entryVal && x.Field == fieldIdx
+				case *ssa.UnOp:
+					if fa, ok := x.X.(*ssa.FieldAddr); ok && x.Op == token.MUL {
+						return entryCell != nil && fa.X == ssa.Value(entryCell) && fa.Field == fieldIdx
+					}
+				}
+				return false
+			}
+			ex, ok := entryVal.(*ssa.Extract)
+			if !ok || ex.Index != 0 {
+				continue
+			}
+			lk, ok := ex.Tuple.(*ssa.Lookup)
+			if !ok {
+				continue
+			}
+			ld, ok := lk.X.(*ssa.UnOp)
+			if !ok {
+				continue
+			}
+			g, ok := ld.X.(*ssa.Global)
+			if !ok {
+				continue
+			}
+			tab, ok := globalStructMapLiteral(w, g)
+			if !ok {
+				continue
+			}
+			fname := fieldName(entryType, fieldIdx)
+			nilKeys := 0
+			for key, fields := range tab {
+				if f, isF := fields[fname].(*ssa.Function); isF && strings.HasPrefix(f.Name(), "DecompressWith") {
+					rd[key] = f.Name()
+				} else if fields[fname] == nil || isNilConst(fields[fname]) {
+					nilKeys++
+					if key == "identity" {
+						// "identity" has no decompressor: the body must be returned as read when the entry's function is nil
+						eachInstr(rb, func(in ssa.Instruction) {
+							if rt, isR := in.(*ssa.Return); isR && len(rt.Results) == 2 {
+								if code, isC := constInt(rt.Results[1]); isC && code == 0 && !isNilConst(rt.Results[0]) {
+									if knownNil(factsAt(rt.Block()), isFuncField) {
+										tableIdentity = true
+									}
+								}
+							}
+						})
+					}
+				}
+			}
+			enc = lk.Index
+		}
 		r.Check("writer-table", len(wr) >= 2, sc.Pos(), fmt.Sprintf("compressor -> encoding: %v", wr))
 		r.Check("reader-table", len(rd) >= 2, rb.Pos(), fmt.Sprintf("encoding -> decompressor: %v", rd))
 		for comp, s := range wr {
@@ -773,7 +861,7 @@ func c14(c *Ctx) {
 				}
 			}
 		})
-		r.Check("identity:reader", okIdR, rb.Pos(), "\"identity\" bodies are returned as read")
+		r.Check("identity:reader", okIdR || tableIdentity, rb.Pos(), "\"identity\" bodies are returned as read")
 		// header names agree
 		hset, hget := "", ""
 		for _, f := range WithAnon(cp) {
@@ -829,8 +917,11 @@ func c14(c *Ctx) {
 				for _, cd := range condsFor(rt.Block()) {
 					cd = normCond(cd)
 					if b := asBinOp(cd.V, token.NEQ); b != nil && cd.Sense && isNilConst(b.Y) {
-						if ex, ok := b.X.(*ssa.Extract); ok && ex.Tuple == cl.(ssa.Value) && ex.Index == 1 {
-							okErr = true
+						// the tested error is this call's, directly or as one of the origins of a shared variable
+						for _, vc := range valueCases(b.X, nil) {
+							if ex, ok := vc.V.(*ssa.Extract); ok && ex.Tuple == cl.(ssa.Value) && ex.Index == 1 {
+								okErr = true
+							}
 						}
 					}
 				}
@@ -1395,6 +1486,71 @@ func stripConvVal(v ssa.Value) ssa.Value {
 			return v
 		}
 	}
+}
+
+// globalStructMapLiteral: g is a package-level map[string]struct{...} initialised by a literal with
+// constant keys and never written afterwards; returns key -> field name -> stored value.
+func globalStructMapLiteral(w *World, g *ssa.Global) (map[string]map[string]ssa.Value, bool) {
+	init := g.Pkg.Func("init")
+	if init == nil {
+		return nil, false
+	}
+	var mk *ssa.MakeMap
+	stores := 0
+	eachInstr(init, func(in ssa.Instruction) {
+		if st, ok := in.(*ssa.Store); ok && st.Addr == ssa.Value(g) {
+			stores++
+			mk, _ = st.Val.(*ssa.MakeMap)
+		}
+	})
+	if stores != 1 || mk == nil {
+		return nil, false
+	}
+	out := map[string]map[string]ssa.Value{}
+	for _, ref := range referrers(mk) {
+		switch x := ref.(type) {
+		case *ssa.MapUpdate:
+			k, okK := constString(x.Key)
+			if !okK {
+				return nil, false
+			}
+			fields := map[string]ssa.Value{}
+			if ld, ok := x.Value.(*ssa.UnOp); ok && ld.Op == token.MUL {
+				if al, ok := ld.X.(*ssa.Alloc); ok {
+					fields = complitFields(al)
+				}
+			}
+			out[k] = fields
+		case *ssa.Store, *ssa.DebugRef:
+		default:
+			return nil, false
+		}
+	}
+	for _, fn := range w.ModuleFuncs() {
+		bad := false
+		eachInstr(fn, func(in ssa.Instruction) {
+			switch x := in.(type) {
+			case *ssa.Store:
+				if x.Addr == ssa.Value(g) && fn.Name() != "init" {
+					bad = true
+				}
+			case *ssa.MapUpdate:
+				if ld, ok := x.Map.(*ssa.UnOp); ok && ld.X == ssa.Value(g) {
+					bad = true
+				}
+			case ssa.CallInstruction:
+				if isCall(x, "builtin delete", "builtin clear") {
+					if ld, ok := x.Common().Args[0].(*ssa.UnOp); ok && ld.X == ssa.Value(g) {
+						bad = true
+					}
+				}
+			}
+		})
+		if bad {
+			return nil, false
+		}
+	}
+	return out, true
 }
 
 // globalMapLiteral: g is a package-level map initialised by a literal with constant keys and values and
